@@ -174,8 +174,12 @@ func (t Table) Apply(d Def) error {
 		if len(m) == 0 {
 			return nil
 		}
+		w := d.Weight
+		if w < 0 {
+			w = 0 // "w <= 0: no fixed weighting", as for route add
+		}
 		for _, x := range m { // the share is split over all matching targets
-			x.Fixed = d.Weight / float64(len(m))
+			x.Fixed = w / float64(len(m))
 		}
 	default:
 		return fmt.Errorf("unknown command %q", d.Cmd)
